@@ -79,7 +79,7 @@ static void destroy_cb_a(pixman_image_t *image, void *data) { cb_data_t *d = dat
 static void destroy_cb_b(pixman_image_t *image, void *data) { cb_data_t *d = data; cb_count[1][d->idx]++; if (d->variant != 1 || image != cur_images[d->idx]) cb_wrong_arg++; }
 
 /* ---- model ---- */
-typedef struct { int alive, crefs, amap, acount, T, F, C, D; } mimg_t;
+typedef struct { int alive, crefs, amap, acount, T, F, C, D; int died_attached; /* owners that were destroyed while this image was their alpha map */ } mimg_t;
 typedef struct { mimg_t im[NI]; int gkey[2]; int destroyed_now[NI]; } model_t;
 
 static int props_total(const model_t *m) { int n = 0; for (int i = 0; i < NI; i++) if (m->im[i].alive) n += m->im[i].T + m->im[i].F + m->im[i].C + (m->im[i].D != 0); return n; }
@@ -91,7 +91,7 @@ static void m_destroy(model_t *m, int i)
     int j = x->amap; x->amap = -1;
     /* the destroy callback variant is remembered in D until the caller has compared the counters */
     x->T = x->F = x->C = 0;
-    if (j >= 0) { m->im[j].acount--; if (m->im[j].crefs + m->im[j].acount == 0) m_destroy(m, j); }
+    if (j >= 0) { m->im[j].acount--; m->im[j].died_attached++; if (m->im[j].crefs + m->im[j].acount == 0) m_destroy(m, j); }
 }
 
 /* ---- the pool ---- */
@@ -101,8 +101,9 @@ typedef struct {
     uint32_t bstore[4];                     /* B's client storage (a8 4x4: one word per row) */
     model_t m;
     int self_attached[NI];                  /* white-box note for classification only: set_alpha_map(i,i) took effect */
-    int stale_refusal;                      /* white-box note: a legal attach was ignored while alpha_count was stale */
-    char stale_text[160];
+    int stale_refusal;                      /* white-box note: a legal attach was ignored while alpha_count was stale (known finding's exact cause) */
+    int attach_ignored;                     /* white-box note: a legal attach was ignored for any reason */
+    char stale_text[240];
     int max_props;
 } pool_t;
 
@@ -178,20 +179,20 @@ static void judge_destruction(pool_t *p, const int before[2][NI], const char *de
         if (m->destroyed_now[i]) { if (m->im[i].D == 0) ea = 1; else if (m->im[i].D == 1) eb = 1; }
         if ((da != ea || db != eb) && !vf_failed()) {
             int self = 0; for (int j = 0; j < NI; j++) self |= p->self_attached[j];
-            const char *key = self ? "c20-self-alpha-map" : p->stale_refusal ? "c20-alpha-count-stale-after-owner-destroyed"
+            const char *key = self ? "c20-self-alpha-map" : p->stale_refusal ? "c20-alpha-count-stale-after-owner-destroyed" : p->attach_ignored ? "c20-alpha-map-attach-ignored"
                               : (da + db > ea + eb) ? "c20-destroyed-too-early-or-twice" : "c20-not-destroyed";
             vf_violation(key, "%s: %s: destroy callbacks of %s ran %d (cbA) + %d (cbB) times, the ownership model expects %d + %d%s%s%s", desc, what, iname[i], da, db, ea, eb,
                          m->destroyed_now[i] ? " (its last reference goes here)" : " (it is still referenced or already gone)",
-                         self ? " [set_alpha_map(x, x) was accepted earlier: the image holds a reference to itself]" : "", p->stale_refusal ? p->stale_text : "");
+                         self ? " [set_alpha_map(x, x) was accepted earlier: the image holds a reference to itself]" : "", p->attach_ignored ? p->stale_text : "");
         }
     }
     if (check_ret && !vf_failed()) {
         int exp = m->destroyed_now[ret_image] ? 1 : 0;
         if ((ret != 0) != exp) {
             int self = 0; for (int j = 0; j < NI; j++) self |= p->self_attached[j];
-            vf_violation(self ? "c20-self-alpha-map" : p->stale_refusal ? "c20-alpha-count-stale-after-owner-destroyed" : "c20-unref-return",
+            vf_violation(self ? "c20-self-alpha-map" : p->stale_refusal ? "c20-alpha-count-stale-after-owner-destroyed" : p->attach_ignored ? "c20-alpha-map-attach-ignored" : "c20-unref-return",
                          "%s: %s returned %d, the ownership model expects %d%s%s", desc, what, ret, exp,
-                         self ? " [set_alpha_map(x, x) was accepted earlier: the image holds a reference to itself and can never be freed]" : "", p->stale_refusal ? p->stale_text : "");
+                         self ? " [set_alpha_map(x, x) was accepted earlier: the image holds a reference to itself and can never be freed]" : "", p->attach_ignored ? p->stale_text : "");
         }
     }
     if (cb_wrong_arg && !vf_failed()) vf_violation("c20-callback-arguments", "%s: %s: a destroy callback was invoked with the wrong image or data pointer", desc, what);
@@ -242,9 +243,14 @@ static int apply(pool_t *p, int op, const char *desc)
         pixman_image_set_alpha_map(p->img[i], j == NONE ? NULL : p->img[j], 1, -1);
         /* white-box notes, used only to give a failure seen later through callbacks / unref its narrow key */
         if (j == i && (pixman_image_t *)p->img[i]->common.alpha_map == p->img[i]) p->self_attached[i] = 1;
-        if (j != NONE && j != i && accept && (pixman_image_t *)p->img[i]->common.alpha_map != p->img[j] && p->img[i]->common.alpha_count > m->im[i].acount) {
-            p->stale_refusal = 1;
-            snprintf(p->stale_text, sizeof p->stale_text, " [set_alpha_map(%s,%s) was ignored: %s.alpha_count is still %d although no live image has it attached]", iname[i], iname[j], iname[i], p->img[i]->common.alpha_count);
+        if (j != NONE && j != i && accept && (pixman_image_t *)p->img[i]->common.alpha_map != p->img[j]) {
+            /* a legal attach was ignored.  Known finding only if the owner's alpha_count is too high by exactly the number of
+             * owners that were destroyed while attached to it (_pixman_image_fini() drops the reference but not the count). */
+            int excess = p->img[i]->common.alpha_count - m->im[i].acount;
+            p->attach_ignored = 1;
+            p->stale_refusal = excess > 0 && excess == m->im[i].died_attached;
+            snprintf(p->stale_text, sizeof p->stale_text, " [set_alpha_map(%s,%s) was ignored: %s.alpha_count is %d, %d live image(s) have it attached, %d owner(s) were destroyed while attached]",
+                     iname[i], iname[j], iname[i], p->img[i]->common.alpha_count, m->im[i].acount, m->im[i].died_attached);
         }
         judge_destruction(p, before, desc, what, 0, 0, 0);
         return 1;
@@ -434,6 +440,7 @@ static void self_alpha_use_case(uint64_t idx, void *ctx)
 int main(int argc, char **argv)
 {
     vf_init(argc, argv, "C20", "model_checking");
+    bfs_replay_adopt_tier();
     int th = vf_is_thorough();
     vf_rule = "E2: breadth-first search over ownership states of a pool of three images (A bits/library storage, B bits/client storage, G linear gradient) and a glyph cache; "
               "one case = one transition (state, operation): history replayed on a fresh pool (rebuilt canonical form must equal the recorded one), operation applied under the ownership model, "
@@ -446,7 +453,7 @@ int main(int argc, char **argv)
     vf_assume("transitions that raise a violation are not explored further (their successors would compare a diverged model)");
     wd_short_ms = 200; wd_long_ms = th ? 2000 : 500;
 
-    max_props_bound = th ? 3 : 2;
+    max_props_bound = th ? 4 : 2;
     { const char *e = getenv("C20_MAX_PROPS"); if (e) max_props_bound = atoi(e); }
     static bfs_t b;
     bfs_init(&b, "lifetime", C20_NOPS, BFS_MAXDEPTH, th ? 3000000 : 1000000, c20_trans, NULL, init_canon());
@@ -456,7 +463,7 @@ int main(int argc, char **argv)
 
     vf_space_run("self-alpha-first-use", 2, self_alpha_use_case, NULL);
 
-    vf_bounds = th ? "3 images + 1 glyph cache; client references per image <= 2; at most 3 non-default properties (transform, filter params, clip, destroy function) in the pool at a time; search to the fixpoint"
+    vf_bounds = th ? "3 images + 1 glyph cache; client references per image <= 2; at most 4 non-default properties (transform, filter params, clip, destroy function) in the pool at a time; search to the fixpoint"
                    : "3 images + 1 glyph cache; client references per image <= 2; at most 2 non-default properties (transform, filter params, clip, destroy function) in the pool at a time; search to the fixpoint";
     return vf_finish();
 }
